@@ -276,7 +276,7 @@ PROPS = {
             'never-blocks-forever and isolation between connections are not decided',
             'handlers of peer input carry no precondition on the peer-controlled arguments']),
     'C07': dict(
-        units=['SESSION', 'SESSENG', 'ACCSESS', 'TXN', 'ACCDELEG', 'TXNDELEG'], kani=[], level='proof',
+        units=['SESSION', 'SESSENG', 'ACCSESS', 'TXN', 'ACCDELEG', 'TXNDELEG', 'SESSWIRING'], kani=[], level='proof',
         title='Session flow control',
         assumptions=[
             'the session engine calls these functions in the order frames arrive/are queued (select! loop not verified)',
